@@ -578,3 +578,22 @@ def path_exists_feasible(fn, src, dst_pred, avoid=lambda pos, elem: False, kill=
                 nf = frozenset(cur | new)
             work.append(((s, 0, nf), path + (s,)))
     return None
+
+
+def is_discarded(fn, node):
+    """is the value of expression `node` thrown away (the node is an expression statement)?"""
+    p = fn.parent_of(node)
+    if p is None:
+        return True
+    k = p.get("k")
+    if k == "compound":
+        return True
+    if k in ("if", "for", "while", "do", "forrange", "case", "default", "label"):
+        for key in ("then", "else", "body", "sub", "inc", "init"):
+            if p.get(key) == node["id"]:
+                return True
+    if k == "bin" and p.get("op") == "," :
+        return p.get("l") == node["id"] or is_discarded(fn, p)
+    if k == "cast" and p.get("ck") == "ToVoid":
+        return True
+    return False
